@@ -87,7 +87,12 @@ class QueueDriver(Entity):
         target_event.time = self.now
         target_event.target = self.target
         target_event.add_completion_hook(schedule_poll)
-        return [target_event]
+        # The queue only notifies when it goes from empty to non-empty, so a burst
+        # leaves items waiting. Once the target has taken this item (the notify is
+        # created after the payload, so it is handled after it at this instant),
+        # look again: a target with spare capacity gets the next item right away.
+        recheck = QueueNotifyEvent(time=self.now, target=self, queue_entity=self.queue)
+        return [target_event, recheck]
 
     def _handle_notify(self, _: QueueNotifyEvent) -> list[Event]:
         """Queue has work available—poll if target has capacity."""
